@@ -36,7 +36,8 @@ ModeOf(c) == IF c \in G_PsdOnly THEN 1 ELSE 0
 \* batch-shape pairs for the two operands
 BPairs == << <<<<>>, <<>>>>, <<<<2>>, <<2>>>>, <<<<2>>, <<>>>>, <<<<>>, <<2>>>>, <<<<2, 1>>, <<3>>>>, <<<<1>>, <<2>>>> >>
 BOps == <<"add", "sub", "matmul">>
-TOps == <<"add_t", "radd_t", "sub_t", "rsub_t">>
+\* (emul_*: elementwise product with a tensor of the full shape, a 1 x N row, an N x 1 column: broadcasting inside the class-specific _mul_matrix)
+TOps == <<"add_t", "radd_t", "sub_t", "rsub_t", "emul_t", "emul_row", "emul_col">>
 \* scalar kinds: 1 python float 2.0, 2 python float -3.0, 3 python 0.0, 4 0-d tensor, 5 one-element tensor,
 \*               6 batch of constants (b,1,1), 7 batch of constants with a negative and a zero member
 SKinds == 1..7
@@ -135,6 +136,9 @@ DivNum(c) == T_Map(c, LAMBDA x : 4 \div x)    \* 4/x is an integer for x in {2, 
 
 TensOperand == G_Int((IF desc.bp[2] = <<>> THEN <<>> ELSE desc.bp[2]) \o <<N, N>>, sd + 77)
 
+TensRow == G_Int((IF desc.bp[2] = <<>> THEN <<>> ELSE desc.bp[2]) \o <<1, N>>, sd + 78)
+TensCol == G_Int((IF desc.bp[2] = <<>> THEN <<>> ELSE desc.bp[2]) \o <<N, 1>>, sd + 79)
+
 Apply ==
   /\ pc = 2 /\ pc' = 3
   /\ LET f == desc.fam op == desc.op n == N b == desc.bp[1] IN
@@ -146,7 +150,10 @@ Apply ==
             LET T == TensOperand
                 e == CASE op = "add_t" -> Al_Add(da, T) [] op = "radd_t" -> Al_Add(T, da)
                        [] op = "sub_t" -> Al_Sub(da, T) [] op = "rsub_t" -> Al_Sub(T, da)
-            IN r' = e /\ Log(op, T, e)
+                       [] op = "emul_t" -> Al_MulElem(da, T)
+                       [] op = "emul_row" -> Al_MulElem(da, TensRow) [] op = "emul_col" -> Al_MulElem(da, TensCol)
+                arg == IF op = "emul_row" THEN TensRow ELSE IF op = "emul_col" THEN TensCol ELSE T
+            IN r' = e /\ Log(op, arg, e)
        [] f = "scal" ->
             LET kind == desc.bp[2][1] c == ScalarT(kind)
             IN IF op = "div"
